@@ -625,7 +625,7 @@ func (c *FnCtx) execBinOp(bc *blockCtx, x *ssa.BinOp) {
 	}
 	if a.K == KStr {
 		if x.Op == token.ADD {
-			c.setReg(fr, x, Val{K: KStr, T: "(str.cat " + a.T + " " + b.T + ")", Ty: x.Type()})
+			c.setReg(fr, x, Val{K: KStr, T: "(gstr.cat " + a.T + " " + b.T + ")", Ty: x.Type()})
 			return
 		}
 		fr.regs[x] = poison("string binop")
@@ -805,6 +805,13 @@ func (c *FnCtx) valEq(a, b Val) string {
 	case KIface:
 		if b.K == KRef {
 			return "(= " + a.Fs[0].T + " 0)"
+		}
+		// comparison with the nil interface: the tag decides
+		if b.K == KIface && b.Fs[0].T == "0" {
+			return "(= " + a.Fs[0].T + " 0)"
+		}
+		if b.K == KIface && a.Fs[0].T == "0" {
+			return "(= " + b.Fs[0].T + " 0)"
 		}
 	case KFunc:
 		if b.K == KRef {
